@@ -893,8 +893,9 @@ def html_template_execute(I, args, ins):
             for f in I.prog.fields(t):
                 if f['t'] != 'string':
                     fields_ok = False
-    ctx.ghost.setdefault('templates', []).append({'kind': 'html', 'data': dv, 'plain_string_fields': fields_ok})
-    body = _tag_bytes(I, ('html-escaped', dv), 'html')
+    dt = data.dyn if isinstance(data, Iface) else None
+    ctx.ghost.setdefault('templates', []).append({'kind': 'html', 'data': dv, 'dtype': dt, 'plain_string_fields': fields_ok})
+    body = _tag_bytes(I, ('html-escaped', dt, dv), 'html')
     r = I.invoke(ctx.force(w), 'Write', [body], ins)
     return ctx.force(r[1])
 
@@ -968,3 +969,32 @@ def bcrypt_compare(I, args, ins):
 def hex_encode(I, args, ins):
     from .base import hex_of_bytes
     return hex_of_bytes(I, I.slice_elems(args[0]))
+
+
+@intrinsic('verifIsResponseForm')
+def i_is_response_form(I, args, ins):
+    ctx = I.ctx
+    w = ctx.load(ctx.force(args[0]))
+    # the harness writer's Body field: the tagged placeholder bytes of every Write
+    body = None
+    for v in w:
+        if isinstance(v, Slice) and v.base is not None and v.len > 0:
+            body = v
+    if body is None:
+        return False
+    for e in I.slice_elems(body):
+        info = ctx.ghost.get('bytes_tag_term', {}).get(str(e)) if is_sym(e) else None
+        if info is not None and info[0] in ('html-escaped', 'text-unescaped') and info[1] is not None and info[1].endswith('IdpAuthnRequestForm'):
+            return True
+    return False
+
+
+@stub('io.Copy')
+def io_copy(I, args, ins):
+    from .base import io_readall
+    ctx = I.ctx
+    r = io_readall(I, [args[1]], ins)
+    if ctx.force(r[1]) is not None:
+        return TupleV((0, r[1]))
+    res = I.invoke(ctx.force(args[0]), 'Write', [r[0]], ins)
+    return TupleV((res[0], res[1]))
